@@ -1,4 +1,4 @@
-import SFV.Proofs.Tdm
+import SFV.Proofs.TdmReshape
 
 /-!
 # C13 — a time-domain program means its explicit loop, however it is unrolled
@@ -47,21 +47,63 @@ theorem unroll_command_iso (cfg : Cfg) (g : Nat) (q : List Nat) (hq : q.Nodup) (
   have hp := regAt_perm cfg false g q
   exact getModes_idxOf _ (hp.nodup_iff.mpr hq) c (by rw [hp.length_eq]; exact hc)
 
-/-- **pulses travel towards the head, the head's subsystem re-enters at the tail** (rotation by one
-step: the default shift of a single-band program, `shift=1`, and the space variant).  Slot `j` at the
-next bin holds what slot `j+1` holds now — so with pulse `(band, g + offset)` in slot `offset` at bin
-`g` a subsystem keeps its pulse until it reaches the head, where it is measured, and re-enters in the
-last slot as pulse `g + 1 + (len − 1) = g + len`, larger than every pulse index used up to bin `g`.
+/-- **the shift-unrolled circuit is the explicit fresh-mode loop (default shift, any number of bands).**
+Call the pulse sitting in slot `o` of band `b` during global bin `g` pulse `(b, g + o)`.  Then, for every
+band structure, register, bin, band and slot:
+1. at bin `g+1` slot `o` of band `b` holds the subsystem that slot `(o+1) mod N_b` of the same band held at
+   bin `g` (bands never mix);
+2. if `o` is not the band's last slot this is slot `o+1`, and the pulse name is unchanged:
+   `(g+1) + o = g + (o+1)` — a subsystem carries its pulse until it reaches the head;
+3. if `o` is the last slot the subsystem comes from the band head (slot 0, the one measured in bin `g`) and
+   its new pulse index `g + N_b` is larger than every index `g' + o'` used in this band up to bin `g`: a
+   fresh pulse;
+4. closed form: slot `o` of band `b` at bin `g` holds the subsystem that started in slot `(o+g) mod N_b`.
+Together with `register_bijection` and `unroll_command_iso` this is the bijection slot × time ↦ pulse id
+under which the unrolled circuit is the hand-written loop. -/
+theorem unroll_pulse_iso (cfg : Cfg) (hs : cfg.shift = .default) (q : List Nat)
+    (hq : cfg.N.sum ≤ q.length) (g b o : Nat) (hb : b < cfg.N.length) (ho : o < cfg.N.getD b 0) :
+    (regAt cfg false (g + 1) q).getD ((cfg.N.take b).sum + o) 0 =
+      (regAt cfg false g q).getD ((cfg.N.take b).sum + (o + 1) % cfg.N.getD b 0) 0 ∧
+    (o + 1 < cfg.N.getD b 0 → (o + 1) % cfg.N.getD b 0 = o + 1 ∧ (g + 1) + o = g + (o + 1)) ∧
+    (o + 1 = cfg.N.getD b 0 → (o + 1) % cfg.N.getD b 0 = 0 ∧
+      ∀ g' o', g' ≤ g → o' < cfg.N.getD b 0 → g' + o' < (g + 1) + o) ∧
+    (regAt cfg false g q).getD ((cfg.N.take b).sum + o) 0 =
+      q.getD ((cfg.N.take b).sum + (o + g) % cfg.N.getD b 0) 0 := by
+  refine ⟨regAt_default_step cfg hs q hq g b o hb ho, ?_, ?_, regAt_default_closed cfg hs q hq g b o hb ho⟩
+  · intro h; exact ⟨Nat.mod_eq_of_lt h, by omega⟩
+  · intro h
+    refine ⟨by rw [h, Nat.mod_self], ?_⟩
+    intro g' o' hg ho'; omega
 
-FULL STATEMENT NOT PROVED for several bands under the default shift (`shiftBands`): there the same two
-facts hold band by band (`(shiftBands N q)[j] = q[j+1]` inside a band, band head ↦ same band's tail).
-That case is validated on every generated program by the correspondence (circuits compared exactly)
-and by the explicit-loop oracle; missing is the index lemma for `shiftBandsFrom`. -/
-theorem unroll_pulse_iso_partial (q : List Nat) :
+/-- the same two facts for a rotation of the whole register by one step (`shift=1`, the space variant,
+and the default shift of a single band): slot `j` next bin holds what slot `j+1` holds now, the last
+slot what slot 0 held. -/
+theorem unroll_pulse_iso_rotation (q : List Nat) :
     (∀ j, j + 1 < q.length → (shiftBy q 1).getD j 0 = q.getD (j + 1) 0) ∧
     (0 < q.length → (shiftBy q 1).getD (q.length - 1) 0 = q.getD 0 0) ∧
     (∀ C, shiftBands [C] q = q.take 0 ++ shiftBy ((q.drop 0).take C) 1 ++ q.drop (0 + C)) :=
   ⟨shiftBy_one_getD q, shiftBy_one_last q, fun _ => rfl⟩
+
+/-! ## space-unrolling -/
+
+/-- **space-unrolling gives the explicit loop with pulse `g + j` in mode `g + j`**, for every loop body
+with slots `< C`, every number of bins and shots, on a register of `L ≥ shots·T + C − 1` fresh modes:
+no command is filtered out by `has_looped_back`, commands keep their order, flags and parameter column. -/
+theorem space_unroll_iso (cfg : Cfg) (rolled : List TCmd) (shots C L : Nat)
+    (hc : ∀ c ∈ rolled, ∀ j ∈ c.regs, j < C) (hL : shots * cfg.timebins + C ≤ L + 1) :
+    unrollProgram cfg true rolled shots (List.range L) =
+      (List.range shots).flatMap fun s => (List.range cfg.timebins).flatMap fun i =>
+        rolled.map fun c => applyOp cfg c (c.regs.map (· + (s * cfg.timebins + i))) i :=
+  space_unroll_range cfg rolled shots C L hc hL
+
+/-- … and `space_unroll(k)` called on a rolled program (in particular after any history followed by
+`roll`) allocates exactly such a register: the circuit it installs is that loop. -/
+theorem space_unroll_installs_loop (cfg : Cfg) (prog : List TCmd) (evs : List Ev) (k : Nat)
+    (hc : ∀ c ∈ prog, ∀ j ∈ c.regs, j < cfg.concurr) :
+    (St.spaceFresh cfg ((St.init cfg prog).steps cfg evs).roll k).circuit =
+      (List.range k).flatMap fun sh => (List.range cfg.timebins).flatMap fun i =>
+        prog.map fun c => applyOp cfg c (c.regs.map (· + (sh * cfg.timebins + i))) i :=
+  spaceFresh_circuit cfg prog _ (roll_isRolled (steps_inv evs (inv_init cfg prog))).1 k hc
 
 /-! ## rolling back, for every call history -/
 
@@ -117,21 +159,46 @@ theorem rejected_unroll_changes_nothing (cfg : Cfg) (s : St) (k : Nat)
     · rename_i hs; simp [hs]
     · simp at h
 
-/-! ## samples, space-unrolling, crop: statements kept visible, proved parts and witnesses
+/-! ## samples -/
 
-FULL STATEMENT `reshape_correct` (NOT PROVED in Lean; checked exactly by the correspondence
-`Tdm.reshape` ↔ `reshape_samples` and the placement oracle on every generated case): for every band
-list `N` with positive entries, measured band heads `modes = bandStarts N`, `T ≥ 1` and `shots`, if
-`samples` is what `_run_program` collects from `unrollProgram cfg false prog shots (range C)` for a
-program measuring every band head once per bin, then entry `[shot][bin]` of
-`reshapeSamples samples modes N T` under key `modes[b]` is the outcome of the measurement of band `b`
-in global bin `shot·T + bin`.
+/-- **entry (shot, band, bin) of the reshaped samples is the outcome of that pulse** — for every mode
+order (every shift, shift- and space-unrolled circuits), every number of bands `B`, bins `T`, shots
+`S`: if reading the per-subsystem queues of `samples` along `order` (what `idx_tracker` does) yields the
+outcomes `val s t b` shot by shot, bin by bin, band by band, then `reshape_samples` returns exactly the
+keys `modes` (in order), each with the array `[s][t] ↦ val s t b`. -/
+theorem reshape_correct (samples : List (Nat × List Int)) (modes : List Nat) (B T S : Nat)
+    (order : List Nat) (val : Nat → Nat → Nat → Int)
+    (hm : modes.Nodup) (hl : modes.length = B) (hB : 0 < B) (hT : 0 < T) (hS : 0 < S)
+    (hread : readVals samples [] order =
+      ((List.range S).map fun s => (List.range T).map fun t => (List.range B).map fun b => val s t b).flatten.flatten) :
+    reshapeWith samples modes B T order =
+      (List.range B).map fun b => (modes.getD b 0, (List.range S).map fun s => (List.range T).map fun t => val s t b) :=
+  reshapeWith_correct samples modes B T S order val hm hl hB hT hS hread
 
-FULL STATEMENT `space_unroll_iso` (NOT PROVED in Lean; oracle `space-state`): for a single band
-`N = [C]`, `shots = 1`, register `range (T + C − 1)`,
-`unrollProgram cfg true prog 1 q = (range T).flatMap fun g => binCmds cfg prog ((range C).map (· + g)) g`.
-
--/
+/-- **the samples a run returns sit at (shot, band, bin)** — for shift- and space-unrolled circuits, every
+shift, every circuit order of the measurements in the loop body.  Let the loop body contain `n`
+measurement commands (on distinct slots, `n` = number of bands) and let the executed circuit perform
+`S·T` groups of `n` measurements, the subsystems measured within one group (one time bin) being pairwise
+distinct (they are: the register is a permutation at every bin, `register_bijection`).  Then
+`_run_program` (samples collected per subsystem, arranged by `reshape_samples` with the order of
+`get_mode_order`) returns, under the `b`-th measured mode, the array whose entry `[s][t]` is the outcome
+of the measurement of that mode's band in time bin `s·T + t` — the `rank[b]`-th measurement of that bin,
+identified by its position `(s·T+t)·n + rank[b]` in the circuit. -/
+theorem run_samples_correct (cfg : Cfg) (rolled circ : List TCmd) (S : Nat)
+    (hB : cfg.N.length = (measuredRegs rolled).length) (hn0 : 0 < (measuredRegs rolled).length)
+    (hT : 0 < cfg.timebins) (hS : 0 < S)
+    (hm : (measuredModes rolled).Nodup) (hl : (measuredModes rolled).length = (measuredRegs rolled).length)
+    (hlen : (measuredRegs circ).length = S * cfg.timebins * (measuredRegs rolled).length)
+    (hn : ∀ g, g < S * cfg.timebins → (grp (measuredRegs circ) (measuredRegs rolled).length g).Nodup) :
+    runSamples cfg rolled circ none =
+      (List.range (measuredRegs rolled).length).map fun b => ((measuredModes rolled).getD b 0,
+        (List.range S).map fun s => (List.range cfg.timebins).map fun t =>
+          (((s * cfg.timebins + t) * (measuredRegs rolled).length +
+            (rankOf (measuredRegs rolled)).getD b 0 : Nat) : Int)) := by
+  unfold runSamples
+  simp only [hB]
+  exact reshapeWith_correct _ _ _ _ S _ _ hm hl hn0 hT hS
+    (run_reads_in_order rolled circ S cfg.timebins hn0 hlen hn)
 
 /-- **crop/delay consistency.**  For all beamsplitter argument lists and loop delays, the crop value
 that `vacuum_padding` announces for the un-padded arguments is the crop value `get_crop_value` computes
@@ -154,28 +221,46 @@ def exProg : List TCmd :=
     { cls := "MeasureHomodyne", regs := [1], pars := [.var 1], meas := true },
     { cls := "MeasureHomodyne", regs := [0], pars := [.var 0], meas := true } ]
 
-/-- **known finding (samples under a non-default shift).**  With the whole register rotated by one
-step (`shift = 1`) instead of band-wise, the samples collected from the unrolled circuit are *not*
-placed at (band, bin) by `reshape_samples` (tags: `k`-th measurement returns `k`; band 0 should read
-`1, 3, 5`, band 1 `0, 2, 4`). -/
-theorem reshape_nondefault_shift_counterexample :
-    reshapeSamples (collectSamples (unrollProgram { exCfg with shift := .int 1 } false exProg 1 [0, 1, 2]))
-      [0, 1] [1, 2] 3 ≠ [(0, [[1, 3, 5]]), (1, [[0, 2, 4]])] := by decide
+/-- (former finding, repaired by `0f93cf1`) without the mode order read off the circuit,
+`reshape_samples` assumes the default shift: for the whole-register rotation `shift = 1` its own guess
+misplaces the samples, while the order of `get_mode_order` places them (tags: `k`-th measurement
+returns `k`; band 0 must read `1, 3, 5`, band 1 `0, 2, 4`). -/
+theorem reshape_needs_true_order_instance :
+    let circ := unrollProgram { exCfg with shift := .int 1 } false exProg 1 [0, 1, 2]
+    reshapeSamples (collectSamples circ) [0, 1] [1, 2] 3 ≠ [(0, [[1, 3, 5]]), (1, [[0, 2, 4]])] ∧
+    runSamples { exCfg with shift := .int 1 } exProg circ none = [(0, [[1, 3, 5]]), (1, [[0, 2, 4]])] := by
+  decide
 
 /-- the same program under the default shift is placed correctly -/
 theorem reshape_default_shift_instance :
     reshapeSamples (collectSamples (unrollProgram exCfg false exProg 1 [0, 1, 2])) [0, 1] [1, 2] 3 =
       [(0, [[1, 3, 5]]), (1, [[0, 2, 4]])] := by decide
 
-/-- **known finding (samples of a space-unrolled run).**  The space-unrolled circuit of a single-band
-program measures subsystems `0, 1, 2`, once each; `reshape_samples` looks for the third outcome under
-subsystem `0` again and does not find it (`IndexError` in Python, default `0` in the model). -/
-theorem reshape_space_unrolled_counterexample :
-    reshapeSamples (collectSamples (unrollProgram { exCfg with N := [2] } true
-        [{ cls := "MeasureHomodyne", regs := [0], pars := [.var 1], meas := true }] 1 [0, 1, 2, 3]))
-      [0] [2] 3 ≠ [(0, [[0, 1, 2]])] := by decide
+/-- (former finding, repaired by `0f93cf1` and `a6024bf`) samples of a space-unrolled run, two shots -/
+theorem reshape_space_unrolled_instance :
+    let cfg := { exCfg with N := [2] }
+    let prog : List TCmd := [{ cls := "MeasureHomodyne", regs := [0], pars := [.var 1], meas := true }]
+    runSamples cfg prog (unrollProgram cfg true prog 2 (List.range 7)) none = [(0, [[0, 1, 2], [3, 4, 5]])] := by
+  decide
 
 /-! ## non-vacuity -/
+
+/-- the hypotheses of `reshape_correct` / `run_samples_correct` hold for a real unrolled circuit:
+two bands measured in the order (band 1, band 0), two shots, three bins -/
+example :
+    let circ := unrollProgram exCfg false exProg 2 [0, 1, 2]
+    exCfg.N.length = (measuredRegs exProg).length ∧ (measuredModes exProg).Nodup ∧
+    (measuredModes exProg).length = (measuredRegs exProg).length ∧
+    (measuredRegs circ).length = 2 * exCfg.timebins * (measuredRegs exProg).length ∧
+    (∀ g, g < 2 * exCfg.timebins → (grp (measuredRegs circ) (measuredRegs exProg).length g).Nodup) ∧
+    rankOf (measuredRegs exProg) = [1, 0] ∧
+    readVals (collectSamples circ) [] (measOrder exProg circ) =
+      ((List.range 2).map fun s => (List.range 3).map fun t => (List.range 2).map fun b =>
+        (((s * 3 + t) * 2 + (if b = 0 then 1 else 0) : Nat) : Int)).flatten.flatten := by decide
+example : exCfg.shift = .default ∧ exCfg.N.sum ≤ [0, 1, 2].length ∧ (1 : Nat) < exCfg.N.length ∧
+    (1 : Nat) < exCfg.N.getD 1 0 ∧ regAt exCfg false 3 [0, 1, 2] = [0, 2, 1] := by decide
+example : (∀ c ∈ exProg, ∀ j ∈ c.regs, j < 3) ∧ 2 * exCfg.timebins + 3 ≤ 8 + 1 ∧
+    (unrollProgram exCfg true exProg 2 (List.range 8)).length = 24 := by decide
 
 example : padded [[0, 0, 3, 1], [0, 0, 0, 0], [2, 0, 0, 5]] [1, 3, 2] =
       [[0, 0, 3, 1, 0, 0, 0, 0], [0, 0, 0, 0, 0, 0, 0, 0], [0, 0, 0, 0, 2, 0, 0, 5]] ∧
